@@ -405,8 +405,9 @@ def reference_passed_up(R, obs) -> list[tuple[str, int, int]]:
                 if seq == expected:
                     expected = (expected + 1) & 0xFF
                     classify(sp[1][4:], n)
-                    if client_cid is not None and sp[1][1] != client_cid:
-                        # a delayed frame of the previous channel whose counter happens to be the expected one: the tunnel
+                    if awaiting or (client_cid is not None and sp[1][1] != client_cid):
+                        # a delayed frame of the previous channel (also: one arriving while the answer to the next
+                        # ConnectRequest is still outstanding) whose counter happens to be the expected one: the tunnel
                         # evaluates the counter only (as C23 states it), so it is passed up - and the frame of the live
                         # channel carrying that counter is then taken for a repetition
                         obs["stale_channel_frames_passed_up"] += 1
